@@ -62,6 +62,10 @@ CHECKS['C11'] = dict(cat='exploration', ref='4 C11',
    text='For every input the compiler accepts (grammar-derived programs plus a boundary generator: numeral spellings, variables named like Python/engine names, keyword/quoted/operator predicate names, failing bodies, 1..40 goals, 1..25 nestings, terms nested 1..120 deep, long lists, many arguments/clauses) the monitor compiles the output as Python, compares its top-level definitions and the keys load_script_from_string adds to the engine with the clause heads found by the independent recogniser, checks each is a generator function and calls every defined predicate.',
    note='Trusted: ypv/recog.py for clause heads; CPython limits (20 nested blocks, 200 nested brackets, 4300-digit integers) define "too large"; reserved API names are loaded but not called.',
    tech='runtime monitor on compile/load outcome and engine context diff against recogniser-derived heads')
+CHECKS['C16'] = dict(cat='exploration', ref='4 C16',
+   text='Monitor on literal round trips: random literals (arbitrary Unicode quoted atoms incl. quotes/newlines/control characters, integers, nested compounds, lists, list patterns, _) are rendered to source, compiled in fact/head/body position and queried; the observed term snapshot and to_python value are compared with the value computed from the generator AST, API-built twins (same and second engine) must unify in all four positions while a twin with one changed leaf must not, and every atom object reachable from an answer must be the interned object of its engine.',
+   note='Trusted: the renderer as the inverse of the documented literal syntax; backslashes other than \\\' and lone surrogates are excluded by the property; compounds named "." with arity != 2 are outside the stated mapping.',
+   tech='runtime differential monitor of literal round trips with positive and negative API-built twins')
 PENDING = {}
 
 def main():
